@@ -7,8 +7,15 @@ import AfkakProofs.Wire.Nested
 import AfkakProps.Open.C05
 import AfkakProofs.Wire.ReplyVersions
 import AfkakProofs.Wire.EncDec
+import AfkakProofs.Wire.BrokerLimit
+import AfkakProofs.Wire.ProducerBatch
 import AfkakProofs.Wire.GenEq
 import AfkakProofs.Wire.GenEqCodec
+import AfkakProofs.Wire.GenEqLoops
+import AfkakProofs.Wire.GenEqAssign
+import AfkakProofs.Wire.GenEqMeta
+import AfkakProofs.Wire.GenEqGen
+import AfkakProofs.Wire.Xerial
 /-!
 # C05 — responses and message sets decode to exactly what was encoded
 
@@ -372,6 +379,81 @@ example : ∃ data, encodeMessageSet idExt [⟨1, 8, none, some [], none⟩, ⟨
       ([⟨7, ⟨1, 8, none, some [], some 1500000000123⟩⟩, ⟨8, ⟨1, 0, some [107], none, some (-1)⟩⟩], none) :=
   ⟨_, rfl, by decide +kernel⟩
 
+/-- The DISPATCH on the codec field (`att & 0x03`) in `_decode_message`, both formats — what happens
+    inside `snappy_decode` (codec 2: the xerial framing loop) is NOT covered here: see
+    `C05_snappy_xerial_roundtrip` and `C05_xerial_negative_block_spins` (model `Afkak/Wire/Xerial.lean`, compared with the real loop through a stub `snappy` module).  Dispatch
+    (`C05_absolute_offsets_v0` is the gzip branch with a successful decompression): 0 yields the message
+    itself; 2 (snappy) hands the value to `snappy_decode` and yields `wrap` of the decoded inner set —
+    the same dispatch as gzip — or raises what `snappy_decode` raised (`NotImplementedError` when
+    python-snappy is absent); a failing `gzip_decode` raises its exception and yields nothing; 3 raises
+    `ProtocolError`.  `att` comes from a `B` field: no other value exists. -/
+theorem C05_codec_dispatch (ext : Ext) (recSet : Bytes → Gen) (att : Int) (value : Option Bytes)
+    (plain : Gen) (wrap : Gen → Gen) :
+    (att.toNat &&& attributeCodecMask = codecNone.toNat → decodeCodec ext recSet att value plain wrap = plain)
+    ∧ (∀ snp, att.toNat &&& attributeCodecMask = codecSnappy.toNat → ext.unsnappy value = .ok snp →
+        decodeCodec ext recSet att value plain wrap = wrap (recSet snp))
+    ∧ (∀ e, att.toNat &&& attributeCodecMask = codecSnappy.toNat → ext.unsnappy value = .error e →
+        decodeCodec ext recSet att value plain wrap = ([], some e))
+    ∧ (∀ e, att.toNat &&& attributeCodecMask = codecGzip.toNat → ext.gunzip value = .error e →
+        decodeCodec ext recSet att value plain wrap = ([], some e))
+    ∧ (att.toNat &&& attributeCodecMask = 3 → decodeCodec ext recSet att value plain wrap = ([], some .protocol))
+    ∧ (att.toNat &&& attributeCodecMask < 4) := by
+  have h10 : ¬ (codecGzip.toNat = codecNone.toNat) := by decide
+  have h20 : ¬ (codecSnappy.toNat = codecNone.toNat) := by decide
+  have h21 : ¬ (codecSnappy.toNat = codecGzip.toNat) := by decide
+  have h30 : ¬ (3 = codecNone.toNat) := by decide
+  have h31 : ¬ (3 = codecGzip.toNat) := by decide
+  have h32 : ¬ (3 = codecSnappy.toNat) := by decide
+  refine ⟨?_, ?_, ?_, ?_, ?_, ?_⟩
+  · intro hc; simp only [decodeCodec, hc, if_true]
+  · intro snp hc hs; simp only [decodeCodec, hc, h20, h21, if_false, if_true, hs]
+  · intro e hc hs; simp only [decodeCodec, hc, h20, h21, if_false, if_true, hs]
+  · intro e hc hs; simp only [decodeCodec, hc, h10, if_false, if_true, hs]
+  · intro hc; simp only [decodeCodec, hc, h30, h31, h32, if_false]
+  · have : attributeCodecMask = 3 := by decide
+    rw [this]
+    exact Nat.lt_succ_of_le Nat.and_le_right
+/-- **The broker limit** (the other side of `C05_metadata_roundtrip`, whose well-formedness includes
+    `≤ 1024 brokers`): a Metadata response the grammar can carry that lists more than `MAX_BROKERS`
+    brokers is refused with `InvalidMessageError`, whatever else it holds.  This is the one place where
+    a response that is well-formed for the protocol is deliberately not decoded. -/
+theorem C05_metadata_broker_limit (v : Spec.MetadataResp) (hv : Spec.metadataResponse.valid v = true)
+    (hn : (v.2.1.length : Int) > maxBrokers) :
+    decodeMetadataResponse (Spec.metadataResponse.enc v) = .error .invalidMessage :=
+  metadata_too_many_brokers v hv hn
+
+example : Spec.metadataResponse.valid (1, List.replicate 1025 (0, [104], 9092), []) = true
+    ∧ (((1, List.replicate 1025 (0, [104], 9092), []) : Spec.MetadataResp).2.1.length : Int) > maxBrokers := by
+  decide +kernel
+/-- **The producer's compressed batch comes back from the decoder** (afkak's encoder path composed with
+    afkak's decoder, compressed case): `create_message_set(requests, CODEC_GZIP, magic)` builds one
+    wrapper, `_encode_message_set([wrapper])` is what the produce encoder writes for the partition; if
+    the decompressor undoes the compressor, `_decode_message_set_iter` yields exactly the requests'
+    payloads, in order, each with its request's key, attributes 0, the format asked for (format 1:
+    stamped with the encoder's clock), every one at offset 0 — afkak writes 0 for the wrapper and for
+    every inner offset, and both offset rules (format 0: as stored; format 1: wrapper − last + inner)
+    give 0 — then ends normally.  No well-formedness hypothesis: derived from the encoders' success. -/
+theorem C05_producer_batch_roundtrip (ext : Ext) (depth : Nat) (reqs : List (Option Bytes × List (Option Bytes)))
+    (magic magic' : Int) (ms : List Message) (data : Bytes)
+    (hinv : ∀ b z, ext.gzip b = .ok z → ext.gunzip (some z) = .ok b)
+    (h : createMessageSet ext reqs codecGzip magic = .ok ms)
+    (hd : encodeMessageSet ext ms none magic' = .ok data) :
+    decodeMessageSet ext (depth + 2) data =
+      ((plainEntries ext.nowMs magic reqs).map (fun e => ⟨e.1, toMessage e.2⟩), none) :=
+  producer_batch_roundtrip ext depth reqs magic magic' ms data hinv h hd
+
+/-- non-vacuity, with the identity as compressor and decompressor: two requests (keys `k` / null, three
+    payloads, one null, one empty) as a format-1 gzip batch: built, written, and decoded to the payloads -/
+def batchExt : Ext :=
+  { crc := fun bs => bs.length * 2654435761 + 7, gzip := fun b => .ok b,
+    gunzip := fun b => match b with | some b => .ok b | none => .error .typeError,
+    snappy := fun _ => .error .notImplemented, unsnappy := fun _ => .error .notImplemented, nowMs := 1500000000123 }
+example : ∃ ms data, createMessageSet batchExt [(some [107], [some [1, 2], none]), (none, [some []])] codecGzip 1 = .ok ms
+    ∧ encodeMessageSet batchExt ms none 1 = .ok data
+    ∧ decodeMessageSet batchExt 2 data =
+      ([⟨0, ⟨1, 0, some [107], some [1, 2], some 1500000000123⟩⟩, ⟨0, ⟨1, 0, some [107], none, some 1500000000123⟩⟩,
+        ⟨0, ⟨1, 0, none, some [], some 1500000000123⟩⟩], none) :=
+  ⟨_, _, rfl, rfl, by decide +kernel⟩
 /-! Non-vacuity: concrete well-formed values (boundary integers, every kind of error code, empty and
 non-empty strings) for which `expectedX` is `some _`. -/
 example : expectedProduceV0 (7, [([116], [(0, 0, 5), (2147483647, -1, 9223372036854775807)]), ([], [])])
@@ -441,6 +523,103 @@ theorem C05_generated_decode_error_only_eq_model (data : Bytes) :
 theorem C05_generated_decode_sync_group_response_eq_model (data : Bytes) :
     genDecodeSyncGroupResponse data = decodeSyncGroupResponse data := gen_decodeSyncGroupResponse data
 
+/-- `KafkaCodec.decode_api_versions_response` including its `for _i in range(num_versions)` loop; the
+    generated result is `(error_code, [(api_key, min_version, max_version)])` -/
+theorem C05_generated_decode_api_versions_response_eq_model (data : Bytes) :
+    (genDecodeApiVersionsResponse data).map (fun r => (r.1, r.2.map apiVersionOfTuple))
+      = decodeApiVersionsResponse data := gen_decodeApiVersionsResponse data
+
+/-- `KafkaCodec.decode_join_group_protocol_metadata` including its subscription loop -/
+theorem C05_generated_decode_join_group_protocol_metadata_eq_model (data : Bytes) :
+    (genDecodeJoinGroupProtocolMetadata data).map (fun r => (⟨r.1, r.2.1, r.2.2⟩ : JoinGroupProtocolMetadata))
+      = decodeJoinGroupProtocolMetadata data := gen_decodeJoinGroupProtocolMetadata data
+
+/-- `KafkaCodec.decode_join_group_response` including its member loop -/
+theorem C05_generated_decode_join_group_response_eq_model (data : Bytes) :
+    (genDecodeJoinGroupResponse data).map
+        (fun r => (⟨r.1, r.2.1, r.2.2.1, r.2.2.2.1, r.2.2.2.2.1, r.2.2.2.2.2⟩ : JoinGroupResp))
+      = decodeJoinGroupResponse data := gen_decodeJoinGroupResponse data
+
+/-- `KafkaCodec.decode_sync_group_member_assignment` (what each member decodes): version check, the
+    topic loop with `relative_unpack(">%si" % num_partitions, ..)`, the dict built by
+    `assignments[topic] = partitions` (a repeated topic keeps its place, last value wins) -/
+theorem C05_generated_decode_sync_group_member_assignment_eq_model (data : Bytes) :
+    (genDecodeSyncGroupMemberAssignment data).map (fun r => (⟨r.1, r.2.1, r.2.2⟩ : SyncGroupMemberAssignment))
+      = decodeSyncGroupMemberAssignment data := gen_decodeSyncGroupMemberAssignment data
+
+/-- `KafkaCodec.decode_consumermetadata_response` (FindCoordinator); `nativeString(host)` is the
+    identity on the ASCII text `read_short_ascii` returns -/
+theorem C05_generated_decode_consumermetadata_response_eq_model (data : Bytes) :
+    (genDecodeConsumermetadataResponse data).map (fun r => (⟨r.1, r.2.1, r.2.2.1, r.2.2.2⟩ : ConsumerMetadataResp))
+      = decodeConsumerMetadataResponse data := gen_decodeConsumerMetadataResponse data
+
+/-- `KafkaCodec.decode_metadata_response`: the MAX_BROKERS refusal and the three nested loops that
+    fill the brokers / topics / partitions dicts (a repeated key keeps its place, last value wins);
+    `convBrokers` / `convTopics` turn the constructors' argument tuples into the model's structures -/
+theorem C05_generated_decode_metadata_response_eq_model (data : Bytes) :
+    (genDecodeMetadataResponse data).map (fun r => (convBrokers r.1, convTopics r.2))
+      = decodeMetadataResponse data := gen_decodeMetadataResponse data
+
+/-! ### generators: the generated term runs in the monad `Y item` (items yielded, then how the run ended) -/
+
+/-- `KafkaCodec.decode_offset_commit_response` (a generator): the same items in the same order and the
+    same ending (exhausted / the exception), for every buffer -/
+theorem C05_generated_decode_offset_commit_response_eq_model (data : Bytes) :
+    ((genDecodeOffsetCommitResponse data).1.map convOC, (genDecodeOffsetCommitResponse data).2)
+      = endG (decodeOffsetCommitResponse data) := gen_decodeOffsetCommitResponse data
+
+/-- `KafkaCodec.decode_offset_fetch_response` (a generator) -/
+theorem C05_generated_decode_offset_fetch_response_eq_model (data : Bytes) :
+    ((genDecodeOffsetFetchResponse data).1.map convOF, (genDecodeOffsetFetchResponse data).2)
+      = endG (decodeOffsetFetchResponse data) := gen_decodeOffsetFetchResponse data
+
+/-- `KafkaCodec.decode_offset_response` (ListOffsets; a generator with an inner non-yielding loop) -/
+theorem C05_generated_decode_offset_response_eq_model (data : Bytes) :
+    ((genDecodeOffsetResponse data).1.map convOR, (genDecodeOffsetResponse data).2)
+      = endG (decodeOffsetResponse data) := gen_decodeOffsetResponse data
+
+/-- the nested generators `v0` and `v2` of `KafkaCodec.decode_produce_response` are the two branches of
+    the model: whatever the model returns for `api_version = 0` is what the generated `v0` does, and
+    for every `api_version >= 1` what the generated `v2` does (same items, same order, same ending).
+    The dispatch on `api_version` around them stays hand-modelled. -/
+theorem C05_generated_decode_produce_response_eq_model (data : Bytes) :
+    (∀ g, decodeProduceResponse data 0 = .ok g →
+      ((genDecodeProduceResponseV0 data).1.map convPR, (genDecodeProduceResponseV0 data).2) = endG g) ∧
+    (∀ v g, v ≥ 1 → decodeProduceResponse data v = .ok g →
+      ((genDecodeProduceResponseV2 data).1.map convPR, (genDecodeProduceResponseV2 data).2) = endG g) := by
+  refine ⟨?_, ?_⟩
+  · intro g hg
+    simp only [decodeProduceResponse, produceRespV0Is, if_true] at hg
+    injection hg with hg
+    rw [← hg]; exact gen_decodeProduceResponseV0 data
+  · intro v g hv hg
+    have h0 : ¬ v = 0 := by omega
+    simp only [decodeProduceResponse, produceRespV0Is, produceRespV2From, h0, hv, if_true, if_false] at hg
+    injection hg with hg
+    rw [← hg]; exact gen_decodeProduceResponseV2 data
+
+/-- non-vacuity: the model does return a generator for versions 0 and 2 -/
+example (data : Bytes) : (∃ g, decodeProduceResponse data 0 = .ok g) ∧ (∃ g, decodeProduceResponse data 2 = .ok g) :=
+  ⟨⟨_, rfl⟩, ⟨_, rfl⟩⟩
+
+/-- `afkak.codec.snappy_decode`, xerial branch (model `Afkak/Wire/Xerial.lean`, `snappy.decompress` a
+    parameter): the block size is used unchecked; the 20-byte payload header + int32(-4) makes the
+    `while cursor < length` loop return to the same cursor, so with a decompressor that accepts the
+    empty string the loop uses up ANY fuel (never ends).  Replayed on the real loop with a stub
+    decompressor (see `AfkakProofs/Wire/Xerial.lean`). -/
+theorem C05_xerial_negative_block_spins (decompress : Bytes → R Bytes) (h : decompress [] = .ok []) (fuel : Nat) :
+    snappyDecode decompress fuel (xerialHeader ++ [0xFF, 0xFF, 0xFF, 0xFC]) = .error .fuel :=
+  xerial_negative_block_spins decompress h fuel
+
+/-- the xerial framing of `snappy_encode(.., xerial_compatible=True)` / `snappy_decode` round-trips, for any
+    compressor / decompressor pair that round-trips and any chunking (model `Afkak/Wire/Xerial.lean`, compared
+    with the real functions through a stub `snappy` module on every run: python-snappy is absent) -/
+theorem C05_snappy_xerial_roundtrip : C05_snappy_xerial_roundtrip_stmt :=
+  fun compress decompress chunks hinv hfit => snappy_xerial_roundtrip compress decompress chunks hinv hfit
+
+/-- non-vacuity: the identity "compressor" and two chunks -/
+example : snappyDecode (fun b => .ok b) 3 (xerialEncode id [[1, 2, 3], [4]]) = .ok [1, 2, 3, 4] := by decide
+
 end Afkak.Props.C05
 
 /- OBLIGATIONS
@@ -476,6 +655,9 @@ C05_codec_mask_agree
 C05_reply_version_dispatch
 C05_reply_roundtrip_any_version
 C05_encode_decode_identity
+C05_codec_dispatch
+C05_metadata_broker_limit
+C05_producer_batch_roundtrip
 C05_generated_read_short_bytes_eq_model
 C05_generated_read_int_string_eq_model
 C05_generated_read_short_ascii_eq_model
@@ -484,6 +666,18 @@ C05_generated_relative_unpack_eq_model
 C05_generated_get_response_correlation_id_eq_model
 C05_generated_decode_error_only_eq_model
 C05_generated_decode_sync_group_response_eq_model
+C05_generated_decode_api_versions_response_eq_model
+C05_generated_decode_join_group_protocol_metadata_eq_model
+C05_generated_decode_join_group_response_eq_model
+C05_generated_decode_sync_group_member_assignment_eq_model
+C05_generated_decode_consumermetadata_response_eq_model
+C05_generated_decode_metadata_response_eq_model
+C05_generated_decode_offset_commit_response_eq_model
+C05_generated_decode_offset_fetch_response_eq_model
+C05_generated_decode_offset_response_eq_model
+C05_generated_decode_produce_response_eq_model
+C05_xerial_negative_block_spins
+C05_snappy_xerial_roundtrip
 -/
 /- OPEN_STATEMENTS
 -/
